@@ -1,5 +1,6 @@
 import IncrVerif.Spec.Trace
 import IncrVerif.Spec.Denote
+import IncrVerif.Spec.WellFormed
 /-!
 # Property predicates `holds_Cxx : History → ImplTrace → verdict`
 
@@ -17,7 +18,8 @@ structure Shadow where
   obs : Array (Opnd × Nat × Bool × Nat) := #[]
   /-- token ↦ observer -/
   tokens : Array Nat := #[]
-  nTop : Nat := 0
+  /-- top-level ordinal ↦ creation index (read off the implementation's `ok #i` answers) -/
+  topAbs : Array Nat := #[]
 
 def Shadow.init (h : History) : Shadow :=
   { prog := { env := h.defs.toEnv,
@@ -28,6 +30,11 @@ def addInt7 (x : Val) (d : Int) : Val := .int ((x.toInt + d) % 7)
 /-- advance the shadow over one action, given what the implementation answered (`api`) -/
 def Shadow.step (sh : Shadow) (a : Action) (idx : Nat) (api : String) : Shadow :=
   let ok := api.startsWith "ok"
+  let sh := match a, api.splitOn "#" with
+    | .create _, [_, n] => match n.toNat? with
+      | some n => { sh with topAbs := sh.topAbs.push n }
+      | none => sh
+    | _, _ => sh
   match a with
   | .create i =>
     match i with
@@ -56,12 +63,19 @@ def Shadow.inUse (sh : Shadow) (o : Nat) : Bool :=
 /-- features the reference semantics does not cover (effects of node functions on variables,
 cutoffs that suppress unequal values, impure `map_with_old` machines, expert nodes): C01's proviso -/
 def _root_.IncrVerif.Engine.History.c01Applicable (h : History) : Bool :=
-  h.defs.fns.all (fun fd => fd.2.effects.isEmpty)
-  && h.defs.hdls.all (fun hd => hd.2.isEmpty)
+  -- only what the program actually uses counts
+  let fnPure (f : Nat) : Bool := ((h.defs.fns.lookup f).map (·.effects.isEmpty)).getD true
+  let instrPure : Instr → Bool
+    | .map f _ => fnPure f
+    | _ => true
+  h.defs.bodies.all (fun b => b.2.2.all fun t => t.instrs.all instrPure)
   && h.actions.all fun a => match a with
     | .create (.cutoff _ c) => c == .eq || c == .never
     | .create (.expert _) => false
+    | .create i => instrPure i
+    | .subscribe _ hid => ((h.defs.hdls.lookup hid).getD []).isEmpty
     | .addDep .. => false
+    | .arm _ => false
     | _ => true
 
 def bodiesApplicable (h : History) : Bool :=
@@ -161,10 +175,272 @@ def holdsC09 (h : History) (tr : ImplTrace) : Verdict := Id.run do
     idx := idx + 1
   return none
 
+def Shadow.absOf (sh : Shadow) (o : Opnd) : Option Nat :=
+  match o with
+  | .outer k => sh.topAbs[k]?
+  | .abs n => some n
+  | .loc _ => none
+
+/-- invocation events of one action: (closure, node, args text, result text) -/
+def invs (a : ActionRec) : List (String × Nat × String × String) :=
+  a.evs.filterMap fun e =>
+    match words e with
+    | "inv" :: fn_at :: rest =>
+      match fn_at.splitOn "@n" with
+      | [f, n] => do
+        let n ← n.toNat?
+        let tail := joinWith " " rest
+        match tail.splitOn "->" with
+        | [args, res] => pure (f, n, args, res)
+        | args :: res => pure (f, n, args, joinWith "->" res)
+        | _ => none
+      | _ => none
+    | _ => none
+
+/-- transitive children of `roots` in a snapshot -/
+def cone (snaps : List NodeSnap) (roots : List Nat) : List Nat :=
+  let rec go : Nat → List Nat → List Nat → List Nat
+    | 0, _, seen => seen
+    | fuel+1, frontier, seen =>
+      match frontier with
+      | [] => seen
+      | n :: rest =>
+        if seen.contains n then go fuel rest seen
+        else
+          let ch := ((snaps.find? (·.id == n)).map (·.ch)).getD []
+          go fuel (ch ++ rest) (n :: seen)
+  go (snaps.length * snaps.length + snaps.length + 10) roots []
+
+def isUserFn (f : String) : Bool := f != "cb"
+
+/-- C02: within one stabilise every node function runs at most once, and the arguments it received are
+the values its inputs have when the stabilise returns (checked for nodes still linked at return). -/
+def holdsC02 (h : History) (tr : ImplTrace) : Verdict := Id.run do
+  let mut idx := 0
+  for a in h.actions do
+    let rec_ := tr[idx]?.getD {}
+    match a with
+    | .stabilise =>
+      let is := (invs rec_).filter (isUserFn ·.1)
+      -- once
+      let keys := is.map fun (f, n, _, _) => s!"{f}@n{n}"
+      for k in keys do
+        if (keys.filter (· == k)).length > 1 then
+          return some s!"action {idx}: {k} was invoked more than once in one stabilise"
+      -- final inputs
+      if rec_.api == "ok" then
+        for (f, n, args, _) in is do
+          match rec_.snapOf n with
+          | some sn =>
+            if sn.valid && sn.nec && !f.startsWith "x" then
+              let vals := sn.ch.map fun c => ((rec_.snapOf c).map (·.val)).getD "?"
+              let expected :=
+                if f.startsWith "g" then none        -- map_with_old also receives its own old value
+                else some ("(" ++ joinWith "," vals ++ ")")
+              match expected with
+              | some e =>
+                if e != args && !(vals.contains "?") then
+                  return some s!"action {idx}: {f}@n{n} ran on {args} but its inputs end the stabilise as {e}"
+              | none =>
+                let x := vals.headD "?"
+                if !(args.endsWith (x ++ ")")) && x != "?" then
+                  return some s!"action {idx}: {f}@n{n} ran on {args} but its input ends the stabilise as {x}"
+          | none => pure ()
+    | _ => pure ()
+    idx := idx + 1
+  return none
+
+/-- C05: a node function runs only if the node lies in the dependency cone of an observer that is
+alive for the call, the cone taken at call or at return.  Returns the literal two-cone verdict;
+`transient` says whether the only failures are nodes that ran in a stabilise in which at least two
+bind closures ran (the structure existed only between call and return: finding F12). -/
+def holdsC05 (h : History) (tr : ImplTrace) : Verdict := Id.run do
+  let mut sh := Shadow.init h
+  let mut idx := 0
+  for a in h.actions do
+    let rec_ := tr[idx]?.getD {}
+    let pre := if idx == 0 then ({} : ActionRec) else tr[idx - 1]?.getD {}
+    match a with
+    | .stabilise =>
+      let roots := (List.range sh.obs.size).filterMap fun o =>
+        if sh.inUse o then (sh.obs[o]?.bind fun x => sh.absOf x.1) else none
+      let cPre := cone pre.snaps roots
+      let cPost := cone rec_.snaps roots
+      let is := (invs rec_).filter (isUserFn ·.1)
+      let nBind := (is.filter fun x => x.1.startsWith "b").length
+        + (rec_.evs.filter fun e => e.startsWith "note obschange").length
+      for (f, n, _, _) in is do
+        if !(cPre.contains n) && !(cPost.contains n) then
+          if nBind ≥ 2 then
+            return some s!"F12 action {idx}: {f}@n{n} ran although it is in no live observer's cone at call or at return (transient structure: {nBind} bind closures / expert rewirings ran in this stabilise)"
+          else
+            return some s!"action {idx}: {f}@n{n} ran although it is in no live observer's cone at call or at return"
+      if roots.isEmpty && !is.isEmpty then
+        return some s!"action {idx}: node functions ran with no live observer"
+    | _ => pure ()
+    sh := sh.step a idx rec_.api
+    idx := idx + 1
+  return none
+
+/-- C07: between stabilises every observer keeps returning the same thing; a new observer reads
+NeverStabilised; reads issued from inside node functions fail with CurrentlyStabilising. -/
+def holdsC07 (h : History) (tr : ImplTrace) : Verdict := Id.run do
+  let mut idx := 0
+  let mut sh := Shadow.init h
+  for a in h.actions do
+    let rec_ := tr[idx]?.getD {}
+    let pre := if idx == 0 then ({} : ActionRec) else tr[idx - 1]?.getD {}
+    let target : Option Nat := match a with
+      | .dropObs o | .disallow o | .cloneObs o => some o
+      | _ => none
+    match a with
+    | .stabilise =>
+      -- reads from inside node functions (propagation phase = before the first notification)
+      let prop := rec_.evs.takeWhile fun e => !(e.startsWith "notif ")
+      for e in prop do
+        if e.startsWith "note read " && !(e.endsWith "err CurrentlyStabilising") && !(e.endsWith "gone") then
+          return some s!"action {idx}: a read from inside a node function returned `{e}`"
+    | _ =>
+      if !(rec_.api.startsWith "panic") then
+        for (o, r) in pre.reads do
+          if some o != target then
+            let now := (rec_.reads.lookup o).getD "missing"
+            if now != r then
+              return some s!"action {idx}: o{o} read `{r}` before and `{now}` after an action that is not a stabilise"
+      match a with
+      | .observe _ =>
+        let o := sh.obs.size
+        let now := (rec_.reads.lookup o).getD "missing"
+        if now != "err NeverStabilised" && rec_.api.startsWith "ok" then
+          return some s!"action {idx}: the new observer o{o} reads `{now}`"
+      | _ => pure ()
+    sh := sh.step a idx rec_.api
+    idx := idx + 1
+  return none
+
+/-- C10: answers of the observer API follow the four-state lifecycle -/
+def holdsC10 (h : History) (tr : ImplTrace) : Verdict := Id.run do
+  -- per observer: 0 created, 1 in use, 2 ended (disallowed or last clone dropped); clones
+  let mut st : Array (Nat × Nat) := #[]
+  let mut tokens : Array Nat := #[]
+  let mut idx := 0
+  for a in h.actions do
+    let rec_ := tr[idx]?.getD {}
+    match a with
+    | .observe _ => st := st.push (0, 1)
+    | .cloneObs o => st := st.modify o fun (l, c) => (l, c + 1)
+    | .dropObs o =>
+      st := st.modify o fun (l, c) => (if c == 1 then 2 else l, c - 1)
+    | .disallow o => st := st.modify o fun (_, c) => (2, c)
+    | .stabilise =>
+      if rec_.api == "ok" then st := st.map fun (l, c) => (if l == 0 then 1 else l, c)
+    | .subscribe o _ =>
+      let (l, _) := st[o]?.getD (2, 0)
+      if l == 2 then
+        if rec_.api != "err Disallowed" then
+          return some s!"action {idx}: subscribe on ended observer o{o} answered `{rec_.api}`"
+      else
+        if !(rec_.api.startsWith "ok t") then
+          return some s!"action {idx}: subscribe on live observer o{o} answered `{rec_.api}`"
+        tokens := tokens.push o
+    | .unsubscribe o t =>
+      match tokens[t]? with
+      | some owner =>
+        let want := if owner != o then "err Mismatch" else "ok"
+        if rec_.api != want then
+          return some s!"action {idx}: unsubscribe o{o} t{t} (token of o{owner}) answered `{rec_.api}`, expected `{want}`"
+      | none => pure ()
+    | .stateUnsub _ =>
+      if rec_.api != "ok" && rec_.api != "noop" then
+        return some s!"action {idx}: state.unsubscribe answered `{rec_.api}`"
+    | _ => pure ()
+    -- reads agree with the lifecycle (outside a poisoned state)
+    let poisoned := (words rec_.stats).contains "status=Stabilising"
+    if !poisoned then
+      for (o, r) in rec_.reads do
+        match st[o]? with
+        | some (l, c) =>
+          if c == 0 then pure ()
+          else if l == 0 && r != "err NeverStabilised" then
+            return some s!"action {idx}: o{o} has not been through a stabilise but reads `{r}`"
+          else if l == 2 && r != "err Disallowed" then
+            return some s!"action {idx}: o{o} was disallowed/dropped but reads `{r}`"
+          else if l == 1 && !(r.startsWith "ok ") && r != "err ObservingInvalid" then
+            return some s!"action {idx}: o{o} is in use but reads `{r}`"
+        | none => pure ()
+    idx := idx + 1
+  return none
+
+/-- C08: write operations act on the variable's logical value in program order; node functions of the
+running stabilise see the value current when it was called; deferred writes surface afterwards. -/
+def holdsC08 (h : History) (tr : ImplTrace) : Verdict := Id.run do
+  -- logical values, with writes issued by effects inside stabilise applied when the stabilise returns
+  let mut vals : Array Val := #[]
+  let mut varNode : Array Nat := #[]     -- var ↦ creation index of its watch node
+  let mut tokHdl : Array Nat := #[]      -- token ↦ handler definition
+  let mut idx := 0
+  let effs (es : List Effect) (vs : Array Val) : Array Val := es.foldl (fun vs e => match e with
+    | .setVar v x | .replaceVar v x => vs.modify v fun _ => x
+    | .modifyVar v d | .updateVar v d | .replaceWithVar v d => vs.modify v fun x => addInt7 x d
+    | _ => vs) vs
+  for a in h.actions do
+    let rec_ := tr[idx]?.getD {}
+    match a with
+    | .create (.var v) =>
+      vals := vals.push v
+      match rec_.api.splitOn "#" with
+      | [_, n] => varNode := varNode.push (n.toNat?.getD 0)
+      | _ => varNode := varNode.push 0
+    | .set v x => vals := vals.modify v fun _ => x
+    | .modify v d | .update v d => vals := vals.modify v fun x => addInt7 x d
+    | .replace v x =>
+      let old := vals[v]?.getD .unit
+      if rec_.api != "ok " ++ old.render then
+        return some s!"action {idx}: replace returned `{rec_.api}`, the value was {old.render}"
+      vals := vals.modify v fun _ => x
+    | .replaceWith v d =>
+      let old := vals[v]?.getD .unit
+      if rec_.api != "ok " ++ old.render then
+        return some s!"action {idx}: replace_with returned `{rec_.api}`, the value was {old.render}"
+      vals := vals.modify v fun x => addInt7 x d
+    | .subscribe _ hid => if rec_.api.startsWith "ok t" then tokHdl := tokHdl.push hid
+    | .get v =>
+      let cur := vals[v]?.getD .unit
+      if rec_.api != "ok " ++ cur.render then
+        return some s!"action {idx}: get returned `{rec_.api}`, the logical value is {cur.render}"
+    | .stabilise =>
+      -- every var watch node that has a value after the stabilise shows the value current at the call
+      if rec_.api == "ok" then
+        for v in List.range vals.size do
+          match rec_.snapOf (varNode[v]?.getD 0) with
+          | some sn =>
+            if sn.nec && sn.valid && sn.r + 1 == rec_.statInt "num" then
+              let want := (vals[v]?.getD .unit).render
+              if sn.val != want then
+                return some s!"action {idx}: var v{v} was recomputed to {sn.val} but its value when stabilise was called was {want}"
+          | none => pure ()
+      -- deferred writes: effects of the closures that ran, in order
+      for (f, _, _, _) in invs rec_ do
+        if f.startsWith "f" then
+          match (f.drop 1).toString.toNat? with
+          | some fi => vals := effs ((h.defs.fns.lookup fi).map (·.effects) |>.getD []) vals
+          | none => pure ()
+      for (t, _, _) in notifs rec_ do
+        vals := effs ((h.defs.hdls.lookup (tokHdl[t]?.getD 0)).getD []) vals
+    | _ => pure ()
+    idx := idx + 1
+  return none
+
 def evalProp (prop : String) (h : History) (tr : ImplTrace) : Verdict :=
   match prop with
+  | "WF" => wellFormed h
   | "C01" => holdsC01 h tr
+  | "C02" => holdsC02 h tr
   | "C04" => holdsC04 h tr
+  | "C05" => holdsC05 h tr
+  | "C07" => holdsC07 h tr
+  | "C08" => holdsC08 h tr
+  | "C10" => holdsC10 h tr
   | "C09" => holdsC09 h tr
   | "C11" => holdsC11 h tr
   | _ => some "unknown-property"
